@@ -65,6 +65,7 @@ class Gen:
             e = self.block(d - 1, inloop, 1, 2) if self.rng.random() < 0.4 else 0
             return self.new(k='for', c=[it, tgt, body, e])
         body = self.block(d - 1, inloop)
+        CANON = self.rng.random() < 0.7
         hs = []
         for _ in range(self.rng.randint(0, 2)):
             kinds = self.rng.choice([[], [1], [2], [1, 2]])
@@ -73,6 +74,9 @@ class Gen:
                                c=[self.block(d - 1, inloop, 1, 2)]))
         fin = self.block(d - 1, inloop, 1, 2) if (not hs or self.rng.random() < 0.5) else 0
         e = self.block(d - 1, inloop, 1, 2) if (hs and self.rng.random() < 0.4) else 0
+        if CANON and hs:
+            b = self.nodes[body]
+            b['c'] = [self.new(k='mayraise', kinds=[1, 2], s=self.nsite())] + b['c'] + [self.new(k='mayraise', kinds=[1, 2], s=self.nsite())]
         return self.new(k='try', c=[body, e, fin], hs=hs)
 
 
